@@ -9,6 +9,14 @@ import FGVerif.Model.C03Spec
       reply  (ok (flag pairs-if-flag-and-C04) <spec_model> <spec_impl>
                  (failed clause…) (model_failed clause…) (host_cycle b) (pattern_cycle b)
                  (exists b) (vis_agree b|_) (wf b))
+  `(mapsub <mapper> <host> <a> <pattern> <pa|_> [impl])` — the public entry point `map_subgraph(graph, anchor,
+      subgraph, mapper, subgraph_anchor=<pa>)` (model: `Sub.mapAnchored` for an explicit pattern anchor, any id
+      including 0; `Sub.mapSubgraph` without one)
+      impl := ((flag ((h p) …)) …) | (raised Kind)      one entry per pattern anchor tried, in node order
+      reply  (ok ((flag pairs-if-flag-and-C04) …) <spec_model> <spec_impl> (failed …) (model_failed …) …)
+      every entry is judged by the clauses of `anchored` for ITS pattern anchor; `c04_result_shape`: the
+      number of entries is not the promised one (exactly one with an explicit anchor, one per pattern node
+      without) — then `c03_missed` is judged on "some entry reports success"
   `(unanchored <mapper> <host> <pattern> [impl flag | (raised Kind)])`
       reply  (ok flag <spec_model> <spec_impl> (failed …) (model_failed …) (host_cycle b)
                  (pattern_cycle b) (exists b) (vis_agree _) (wf b))
@@ -44,18 +52,27 @@ structure Clauses where
   /-- the mapper has can_map_to_nothing symbols: pattern nodes may stay unmapped by design, so only
       `pairNotAdmitted` and `raised` are judged -/
   cmtn : Bool := false
+  /-- `map_subgraph`: the result list has not the promised number of entries -/
+  shape : Bool := false
+
+def Clauses.or (c d : Clauses) : Clauses :=
+  { missed := c.missed || d.missed, notEmbedding := c.notEmbedding || d.notEmbedding,
+    falseNegAcyclic := c.falseNegAcyclic || d.falseNegAcyclic, raised := c.raised || d.raised,
+    pairNotAdmitted := c.pairNotAdmitted || d.pairNotAdmitted, cmtn := c.cmtn || d.cmtn,
+    shape := c.shape || d.shape }
 
 def Clauses.names (c : Clauses) : List SExp :=
   (if c.missed then [SExp.atom "c03_missed"] else []) ++
   (if c.notEmbedding then [SExp.atom "c04_not_embedding"] else []) ++
   (if c.falseNegAcyclic then [SExp.atom "c04_false_negative_acyclic"] else []) ++
   (if c.raised then [SExp.atom "raised"] else []) ++
-  (if c.pairNotAdmitted then [SExp.atom "c04_pair_not_admitted"] else [])
+  (if c.pairNotAdmitted then [SExp.atom "c04_pair_not_admitted"] else []) ++
+  (if c.shape then [SExp.atom "c04_result_shape"] else [])
 
 def Clauses.holds (c : Clauses) : Which → Bool
   | .c03 => !c.missed && !c.raised
-  | .c04 => if c.cmtn then !c.pairNotAdmitted && !c.raised
-            else !c.notEmbedding && !c.falseNegAcyclic && !c.raised && !c.pairNotAdmitted
+  | .c04 => if c.cmtn then !c.pairNotAdmitted && !c.raised && !c.shape
+            else !c.notEmbedding && !c.falseNegAcyclic && !c.raised && !c.pairNotAdmitted && !c.shape
 
 /-- the three clauses for an anchored answer -/
 def judgeAnchored (m : Mapper) (g : Graph) (a : Int) (p : Graph) (pa : Int) (ex acyclic : Bool)
@@ -71,6 +88,16 @@ def judgeUnanchored (ex acyclic : Bool) (flag : Bool) : Clauses :=
   { missed := ex && !flag
     notEmbedding := flag && !ex
     falseNegAcyclic := acyclic && !flag && ex }
+
+/-- the clauses for an answer of `map_subgraph`: `anchors` = the pattern anchors the promised entries speak
+    about (with their oracle verdicts), `res` = the entries -/
+def judgeMapSub (m : Mapper) (g : Graph) (a : Int) (p : Graph) (anchors : List (Int × Bool)) (want : Nat)
+    (acyclic : Bool) (res : List (Bool × List (Int × Int))) : Clauses :=
+  let cm : Clauses := { cmtn := !m.canMapToNothing.isEmpty }
+  if res.length != want then
+    { cm with shape := true, missed := anchors.any (·.2) && !res.any (·.1) }
+  else
+    (anchors.zip res).foldl (fun acc x => acc.or (judgeAnchored m g a p x.1.1 x.1.2 acyclic x.2.1 x.2.2)) cm
 
 def kv (k : String) (v : SExp) : SExp := .list [.atom k, v]
 
@@ -114,6 +141,39 @@ def handleFor (w : Which) : List SExp → Option SExp
         kv "model_failed" (.list cm.names),
         kv "host_cycle" (ofBool hostCyc), kv "pattern_cycle" (ofBool patCyc),
         kv "exists" (ofBool ex), kv "vis_agree" visAgree,
+        kv "wf" (ofBool (wfB g && wfB p))])
+  | .atom "mapsub" :: m :: g :: a :: p :: pa :: rest => do
+      let m ← asMapper m
+      let g ← asGraph g
+      let p ← asGraph p
+      let a ← asInt a
+      let pa ← asOpt asInt pa
+      let ids : List Int := match pa with | some x => [x] | none => p.nodeIds
+      let anchors := ids.map fun x => (x, existsEmbedding m p g x a)
+      let want : Nat := match pa with | some _ => 1 | none => if p.nodes.isEmpty then 1 else ids.length
+      let model : List (Bool × List (Int × Int)) := match pa with
+        | some x => let r := mapAnchored g a p x m; [(r.ok, r.mapping)]
+        | none => mapSubgraph g a p m
+      let hostCyc := !isForestB g
+      let patCyc := !isForestB p
+      let acyclic := !hostCyc && !patCyc
+      let cm := judgeMapSub m g a p anchors want acyclic model
+      let enc (l : List (Bool × List (Int × Int))) : SExp :=
+        ofList (fun (e : Bool × List (Int × Int)) =>
+          SExp.list [ofBool e.1, ofPairs (if e.1 && w == .c04 then sortPairs e.2 else [])]) l
+      let ci ← match rest with
+        | [impl] =>
+            if isRaised impl then pure (some ({ raised := true } : Clauses))
+            else do
+              let res ← asList (asPair asBool asPairs) impl
+              pure (some (judgeMapSub m g a p anchors want acyclic res))
+        | _ => pure none
+      pure (.list [.atom "ok", enc model, ofBool (cm.holds w),
+        (match ci with | some c => ofBool (c.holds w) | none => none'),
+        kv "failed" (.list (match ci with | some c => c.names | none => [])),
+        kv "model_failed" (.list cm.names),
+        kv "host_cycle" (ofBool hostCyc), kv "pattern_cycle" (ofBool patCyc),
+        kv "exists" (ofBool (anchors.any (·.2))), kv "vis_agree" none',
         kv "wf" (ofBool (wfB g && wfB p))])
   | .atom "unanchored" :: m :: g :: p :: rest => do
       let m ← asMapper m
